@@ -131,7 +131,20 @@ def build_variants(state, data):
 
     for r in ch.get(None, []):
         rec(r)
-    return {"post-order": t1, "reversed+update": t2, "from_dict": t3, "point-by-point": t4}
+    out = {"post-order": t1, "reversed+update": t2, "from_dict": t3, "point-by-point": t4}
+    # the original after a COPY of it was edited (Gibbs-move style) and the original recomputed: copies must not share buffers
+    t5 = oracle.build(state, data)
+    big = [b for b, _ in state[0] if len(b) > 1]
+    if big:
+        c = t5.copy()
+        nd = c.node_data
+        name_of = {frozenset(d.idx for d in v): k for k, v in nd.items() if k != c.outlier_node_name}
+        b = sorted(big, key=sorted)[0]
+        c.remove_data_point_from_node(dmap[max(b)], name_of[b])
+        c.add_data_point_to_outliers(dmap[max(b)])
+        t5.update()
+        out["original-after-its-copy-was-edited"] = t5
+    return out
 
 
 def case(item):
@@ -224,8 +237,8 @@ def main(tier, seed):
     for r in pool_imap(case, its, chunksize=4):
         par, G, dims, kind, _ = r["item"]
         chk.states.add((par, G, dims, kind))
-        chk.transitions += 4 * dims
-        chk.traces_validated += 4 * dims
+        chk.transitions += 5 * dims
+        chk.traces_validated += 5 * dims
         chk.evaluations += r["entries"]
         chk.bump("entries_in_tight_region", r["tight"])
         chk.bump("cases_validated_by_literal_sum", 1 if r["literal"] else 0)
